@@ -22,10 +22,12 @@ POOL = [
     ("groups-alternative", "Either(Capture('a'), Capture('b', 'k'))", True),
     ("groups-nested", "Capture(Capture('a', 'i') + Optional('b'))", True),
     ("groups-empty", "Capture(Indefinite('a'), 'e') + Capture('b')", True),
+    # text that the printable export (get_pattern / __repr__, which compile() goes through) has to carry unchanged
+    ("backslash-quote", "Pregex(chr(92) + chr(39)) + Optional('a')", False),
 ]
 # sources executed concretely with the real re in addition to the symbolic run (CrossHair's match model lacks e.g. the real
 # lastindex semantics and mishandles the empty subject; these points keep such blind spots covered)
-SRC_POINTS = ["", "a", "b", "ab", "ba", "abc", "aab", "a\nb", "ab ab", "xaby"]
+SRC_POINTS = ["", "a", "b", "ab", "ba", "abc", "aab", "a\nb", "ab ab", "xaby", "\\'a", "x'a\\'"]
 NONNEST = ("groups-mixed", "groups-optional", "groups-alternative", "groups-empty")
 
 HIST = """for op in OPS:
@@ -46,7 +48,7 @@ HIST = """for op in OPS:
 
 def c11_cases(tier):
     cs = []
-    pool = POOL if tier == "thorough" else POOL[:10] + POOL[10:11]
+    pool = POOL if tier == "thorough" else POOL[:10] + POOL[10:11] + POOL[15:16]
     check = (
         "d, gi = direct(p, src)\n"
         "if p.has_match(src) != (len(d) > 0):\n    return False\n"
